@@ -89,6 +89,8 @@ func Replay(g *graph.G, walk []int, scratch string, depth int, seed int64, f For
 			}
 			if next < 0 {
 				switch {
+				case sr.Outcome == "unusable":
+					div(i, "C08", "unusable-key-served", "with a %s cache file (%s) the run started and advertises a fingerprint, but no handshake with it succeeds: %v", from.Fst, from.Fcls, sr.Err)
 				case sr.Outcome == "generated" && (from.Fst == "torn" || from.Fst == "damaged"):
 					div(i, "C08", "silently-different-key", "a %s cache file (%s) led to a newly generated key being served instead of an error or the original key", from.Fst, from.Fcls)
 				case sr.Outcome == "generated" && from.Fst == "intact":
